@@ -10,7 +10,7 @@
 //
 // op lines                                           answers
 //
-//	cfg t0=<ns> gc=<sec> early=<0|1> order=<i,j,..> q0=c,<max>,<expSec>,<parent|-> q1=f ...   ok | err:init
+//	cfg t0=<ns> gc=<sec|-> early=<0|1> order=<i,j,..> q0=c,<max>,<expSec|->,<parent|-> q1=f ...   ok | err:init
 //	req r=<id> m=<G|P>                               v=<a|r|e> c=<n0,n1,..>    (a admitted, r refused 429, e answered early 200)
 //	resp r=<id>                                      ok c=<..>
 //	err r=<id>                                       ok c=<..>                  (Stream.OnError)
@@ -49,8 +49,12 @@ func parseCfg(w []string) (caseCfg, bool) {
 	if c.t0, ok = kvI(w, "t0"); !ok {
 		return c, false
 	}
-	if c.gcSec, ok = kvI(w, "gc"); !ok || c.gcSec <= 0 {
+	if g, okg := proto.KV(w, "gc"); okg && g == "-" { // gc_interval_sec not configured
+		c.gcSec, c.gcSet = defaultGCSec, false
+	} else if c.gcSec, ok = kvI(w, "gc"); !ok || c.gcSec <= 0 {
 		return c, false
+	} else {
+		c.gcSet = true
 	}
 	ev, ok := kvI(w, "early")
 	if !ok {
@@ -85,11 +89,15 @@ func parseCfg(w []string) (caseCfg, bool) {
 		case len(p) == 4 && p[0] == "c":
 			mx, e1 := strconv.ParseInt(p[1], 10, 64)
 			ex, e2 := strconv.ParseInt(p[2], 10, 64)
+			expSet := true
+			if p[2] == "-" { // request_expiration_sec not configured
+				ex, e2, expSet = defaultExpSec, nil, false
+			}
 			par, ok := parent(p[3])
 			if !ok || e1 != nil || e2 != nil || mx < 0 || ex <= 0 {
 				return c, false
 			}
-			c.quotas = append(c.quotas, qspec{conc: true, max: mx, expSec: ex, parent: par})
+			c.quotas = append(c.quotas, qspec{conc: true, max: mx, expSec: ex, expSet: expSet, parent: par})
 		default:
 			return c, false
 		}
